@@ -2,6 +2,8 @@
 histories, and the K12 (`eval_rhs`) correspondence."""
 from __future__ import annotations
 
+import contextlib
+
 import numpy as np
 
 from . import common as C
@@ -15,7 +17,7 @@ class LField:
     """L(t, x) = L0 + t*L1 + sum_i x_i*Mi + sin(w t)*L2 and pathline x(t) = x0 + v t.
     Serialisable (all coefficients are arrays) so a failing scenario can be replayed."""
 
-    def __init__(self, L0, L1=None, Mx=None, L2=None, w=0.0, x0=None, v=None, scale=1.0, tscale=1.0):
+    def __init__(self, L0, L1=None, Mx=None, L2=None, w=0.0, x0=None, v=None, scale=1.0, tscale=1.0, torig=0.0, pulse_P=0.0, L3=None):
         z = np.zeros((3, 3))
         self.L0, self.L1, self.L2 = np.array(L0, float), np.array(z if L1 is None else L1, float), np.array(z if L2 is None else L2, float)
         self.Mx = np.zeros((3, 3, 3)) if Mx is None else np.array(Mx, float)
@@ -24,28 +26,36 @@ class LField:
         self.v = np.zeros(3) if v is None else np.array(v, float)
         self.scale = float(scale)    # multiplies L (C05)
         self.tscale = float(tscale)  # time compression: L(t) evaluated at t*tscale (C05)
+        self.pulse_P = float(pulse_P)  # period of the bump term 4u(1-u) L3, u = (t/P) mod 1: EXACTLY zero at multiples of P (aligned_pulse)
+        self.L3 = np.zeros((3, 3)) if L3 is None else np.array(L3, float)
+        self.torig = float(torig)    # time origin of the history (model time at which the L1 / L2 / pathline terms start), in compressed time
 
     def pos(self, t):
-        return self.x0 + self.v * (t * self.tscale)
+        return self.x0 + self.v * ((t - self.torig) * self.tscale)
 
     def __call__(self, t, x):
-        tt = t * self.tscale
-        return self.scale * (self.L0 + tt * self.L1 + np.einsum("i,ijk->jk", np.asarray(x, float), self.Mx) + np.sin(self.w * tt) * self.L2)
+        tt = (t - self.torig) * self.tscale
+        L = self.L0 + tt * self.L1 + np.einsum("i,ijk->jk", np.asarray(x, float), self.Mx) + np.sin(self.w * tt) * self.L2
+        if self.pulse_P:
+            u = (tt / self.pulse_P) % 1.0
+            L = L + (4.0 * u * (1.0 - u)) * self.L3
+        return self.scale * L
 
     def scaled(self, k):
-        return LField(self.L0, self.L1, self.Mx, self.L2, self.w, self.x0, self.v, scale=self.scale * k, tscale=self.tscale * k)
+        return LField(self.L0, self.L1, self.Mx, self.L2, self.w, self.x0, self.v, scale=self.scale * k, tscale=self.tscale * k,
+                      torig=self.torig / k, pulse_P=self.pulse_P, L3=self.L3)
 
     def rotated(self, Q):
         r = lambda X: Q @ X @ Q.T  # noqa: E731
         Mx = np.einsum("ia,ajk->ijk", Q, np.stack([r(self.Mx[a]) for a in range(3)]))  # x' = Q x
-        return LField(r(self.L0), r(self.L1), Mx, r(self.L2), self.w, Q @ self.x0, Q @ self.v, self.scale, self.tscale)
+        return LField(r(self.L0), r(self.L1), Mx, r(self.L2), self.w, Q @ self.x0, Q @ self.v, self.scale, self.tscale, self.torig, self.pulse_P, r(self.L3))
 
     def to_json(self):
         return {k: (getattr(self, k).tolist() if hasattr(getattr(self, k), "tolist") else getattr(self, k))
-                for k in ("L0", "L1", "Mx", "L2", "w", "x0", "v", "scale", "tscale")}
+                for k in ("L0", "L1", "Mx", "L2", "w", "x0", "v", "scale", "tscale", "torig", "pulse_P", "L3")}
 
     def is_constant(self):
-        return not (self.L1.any() or self.L2.any() or self.Mx.any())
+        return not (self.L1.any() or self.L2.any() or self.Mx.any() or (self.pulse_P and self.L3.any()))
 
 
 def make_field(rng, kind):
@@ -90,6 +100,7 @@ def make_scenario(rng, k, nmax=16, regimes=(4, 6), two_phase=True, fields=FIELD_
     if np.linalg.det(sc["F0"]) <= 0.1:
         sc["F0"] = np.eye(3)
     sc["field_kind"] = fields[(k // 3) % len(fields)]
+    sc["debug_log"] = (k % 5 == 3)      # run with a DEBUG-level log handler attached (see debug_logging)
     # params["number_of_grains"] need not equal the mineral's own grain count (a Mineral built with n_grains=... and driven with
     # the default parameter record): the mineral's n_grains is what counts
     sc["params_n"] = sc["n"] if k % 2 == 0 else 3500
@@ -129,6 +140,8 @@ def build_mineral(sc):
 
 
 def times_of(sc):
+    if sc.get("times") is not None:     # explicit partition (far time origins, reversed intervals, uneven partitions)
+        return np.array(sc["times"], float)
     return np.linspace(sc["t0"], sc["t0"] + sc["span"], sc["n_updates"] + 1)
 
 
@@ -143,14 +156,36 @@ def run_scenario(sc, mineral=None, record=True, times=None, **kw):
     rec = impl.Recorder()
     if record:
         rec.__enter__()
+    log_ctx = debug_logging() if sc.get("debug_log") else contextlib.nullcontext()
     try:
-        for a, b in zip(ts[:-1], ts[1:]):
-            F = m.update_orientations(params, F, fld, (a, b, fld.pos), get_regime=sc.get("get_regime"), **kw)
-            Fs.append(np.array(F))
+        with log_ctx:
+            for a, b in zip(ts[:-1], ts[1:]):
+                F = m.update_orientations(params, F, fld, (a, b, fld.pos), get_regime=sc.get("get_regime"), **kw)
+                Fs.append(np.array(F))
     finally:
         if record:
             rec.__exit__(None, None, None)
     return m, Fs, rec
+
+
+@contextlib.contextmanager
+def debug_logging():
+    """PyDRex's own default logger configuration (logger level DEBUG; the harness otherwise silences it) plus a DEBUG-level
+    handler attached the documented way (pydrex.io.logfile_enable), writing to memory: the properties hold whatever the
+    logging configuration is, so a share of all scenarios runs like this"""
+    import io as _io
+    import logging
+
+    from pydrex import io as pio
+    from pydrex import logger as plog
+
+    old = plog.LOGGER.level
+    plog.LOGGER.setLevel(logging.DEBUG)
+    try:
+        with pio.logfile_enable(_io.StringIO()):
+            yield
+    finally:
+        plog.LOGGER.setLevel(old)
 
 
 def accumulated_strain(sc, times=None, sub=400):
@@ -162,7 +197,7 @@ def accumulated_strain(sc, times=None, sub=400):
     for t in tt:
         L = fld(t, fld.pos(t))
         vals.append(np.abs(np.linalg.eigvalsh((L + L.T) / 2)).max())
-    return float(np.trapezoid(vals, tt))
+    return abs(float(np.trapezoid(vals, tt)))   # |.|: reversed partitions integrate backwards
 
 
 def reference_F(sc, t_end=None, sub=4000):
@@ -267,7 +302,8 @@ def check_poststeps(res, sc, rec, start_As, tag="K13"):
 def scenario_from_json(d):
     f = d["field"]
     fld = LField(np.array(f["L0"]), np.array(f["L1"]), np.array(f["Mx"]), np.array(f["L2"]), f["w"], np.array(f["x0"]), np.array(f["v"]),
-                 f.get("scale", 1.0), f.get("tscale", 1.0))
+                 f.get("scale", 1.0), f.get("tscale", 1.0), f.get("torig", 0.0), f.get("pulse_P", 0.0),
+                 np.array(f["L3"]) if f.get("L3") is not None else None)
     sc = {k: v for k, v in d.items() if k not in ("field", "get_regime", "mode", "other", "k", "Q", "subset", "twofold", "variant", "loader",
                                                    "chis", "kwargs", "minerals", "L")}
     sc["field"] = fld
